@@ -363,6 +363,18 @@ def time_of_np_dt64(r):
     return _np.datetime64('2020-01-01T00:00:00') + _np.timedelta64(int(r.t), 's')
 
 
+class FalsyFn(object):
+    """wraps a user function in a callable object whose truth value is False (e.g. a memoising dict subclass that is still empty)"""
+    def __init__(self, fn):
+        self.fn = fn
+
+    def __call__(self, *a):
+        return self.fn(*a)
+
+    def __len__(self):
+        return 0
+
+
 class FalsyCloser(object):
     """a closing_mapper that is a callable object with a false truth value (it has a length, and it is empty)"""
     def __call__(self, r):
